@@ -94,6 +94,9 @@ func ByteStreamConsumer(opts ...byteStreamOpt) Consumer {
 		case encoding.BinaryUnmarshaler:
 			return destinationPointer.UnmarshalBinary(b)
 		case *any:
+			if destinationPointer == nil {
+				return errors.New("nil destination for ByteStreamConsumer")
+			}
 			switch (*destinationPointer).(type) {
 			case string:
 				*destinationPointer = string(b)
@@ -112,6 +115,9 @@ func ByteStreamConsumer(opts ...byteStreamOpt) Consumer {
 			}
 
 			v := reflect.Indirect(reflect.ValueOf(data))
+			if !v.IsValid() {
+				return errors.New("nil destination for ByteStreamConsumer")
+			}
 			t := v.Type()
 
 			switch {
@@ -194,6 +200,9 @@ func ByteStreamProducer(opts ...byteStreamOpt) Producer {
 
 		default:
 			v := reflect.Indirect(reflect.ValueOf(data))
+			if !v.IsValid() {
+				return errors.New("nil data for ByteStreamProducer")
+			}
 			t := v.Type()
 
 			switch {
